@@ -27,6 +27,7 @@ CONSTS = {
     "numpy.nan": NaN, "numpy.float64": DType("float64"), "numpy.float32": DType("float32"),
     "numpy.int32": DType("int32"), "numpy.int64": DType("int64"), "numpy.intp": DType("intp"),
     "numpy.bool_": DType("bool"), "numpy.newaxis": None, "numpy.inf": "inf+", "numpy.uint8": DType("uint8"),
+    "sklearn.tree._tree.TREE_LEAF": -1, "sklearn.tree._tree.TREE_UNDEFINED": -2,
     "numpy.str_": DType("str"), "numpy.object_": DType("object"), "numpy.double": DType("float64"),
 }
 
@@ -306,7 +307,10 @@ def getitem(R, E, arr, idx, node):
         v = arr.view((), imap)
         val = v.get()
         if arr.cell.nan is not None:
-            E.note_nan_read(v, node)
+            flag = z3.simplify(v.isnan())
+            if not z3.is_false(flag) and E.feasible(flag):
+                from .values import NanReal
+                return NanReal(z3.simplify(val), flag)
         return z3.simplify(val)
     return arr.view(shape, imap)
 
@@ -326,6 +330,10 @@ def setitem(R, E, arr, idx, val, node):
                 E.raise_("ValueError", node, "safety")
         if val is NaN:
             dst.set((), z3.RealVal(0), nanval=True)
+            return
+        from .values import NanReal
+        if isinstance(val, NanReal):
+            dst.set((), cast(val.val, arr.kind), nanval=val.isnan)
             return
         if not is_num_like(val):
             raise Unsupported("store of %r in an array" % (val,))
@@ -536,7 +544,8 @@ def install(R):
         if isinstance(v, SList):
             k = kind_of_dtype(dtype, "real" if v.sort == z3.RealSort() else "int")
             fs = v.snapshot()
-            return NdArr.from_fn("array", (v.length,), k, lambda i: cast(z3.Select(fs.term, i), k))
+            return NdArr.from_fn("array", (v.length,), k, lambda i: cast(z3.Select(fs.term, i), k),
+                                 (lambda i: fs.isnan(i)) if fs.nan is not None else None)
         hook = getattr(R, "np_array_hook", None)
         if hook is not None:
             r = hook(E, v, dtype, kw)
